@@ -123,6 +123,13 @@ def check(run: Run) -> None:
 
     check_comprehension_shadow(run, ctx, m, cls, "C05.R6")
 
+    # ---------------- R7: which function a helper name stands for is decided by the callable's own scopes (shared with C04.R3/R6)
+    run.rule("C05.R7", "the helper that is inlined is the one the name denotes for the callable: closure before module globals, in a fresh table")
+    from ..report import Relabel
+    from .c04 import check_snapshot
+
+    check_snapshot(Relabel(run, "C05.R7"), TermCtx(m, max_depth=2, opaque={"as_literal", "_parse_source_for_lambda"}), m, m.find_class("_rewrite_captured_vars", in_module="func_adl.util_ast"))
+
     # ---------------- R4
     check_rewrite_func(run, ctx, m, "C05.R4")
 
